@@ -95,6 +95,24 @@ def check_case(spec, inst, mo, rnd, res=None, broken_first='draw', gen=None):
                 got = {n.name: n.attributes for n in g.nodes if n.asset is a}
                 if all(isinstance(v, dict) for v in got.values()) and canon_steps(got) != want[str(a.type)]:
                     probs.append(f'attack steps of {a.type} exposed by the attack graph differ from the root-down fold'); break
+        if g is not None and not probs:
+            # a second release of the language (same assets and associations; redefinitions flipped between '->' and
+            # '+>', one more tag on every step) loaded next to the first: an attack graph built from IT for the model
+            # whose classes came from the first exposes the fold of the second - whichever language graph the
+            # model's classes were generated from
+            spec2 = second_release(spec)
+            try:
+                g2 = AttackGraph(LanguageGraph(copy.deepcopy(spec2)), m)
+            except Exception as e:
+                g2 = None
+                if res: res.notes.append('graph generation for the second release failed in C03 case: ' + type(e).__name__)
+            if g2 is not None:
+                ref2 = Ref(spec2, inst)
+                for a in m.assets:
+                    got = {n.name: n.attributes for n in g2.nodes if n.asset is a}
+                    if all(isinstance(v, dict) for v in got.values()) and canon_steps(got) != canon_steps(ref2.fold_steps(str(a.type))):
+                        probs.append(f'attack steps of {a.type} exposed by an attack graph built from a second release of the language differ from the root-down fold of that release'); break
+                if res is not None: res.bump('second_release_graphs')
         ask_all('after regenerating the language graph and building two attack graphs')
         if not probs: exposed('after regenerating the language graph')
         if not probs and lg._lang_spec != snapshot: probs.append('language specification modified by graph generation')
@@ -110,6 +128,22 @@ def check_case(spec, inst, mo, rnd, res=None, broken_first='draw', gen=None):
     if gen is not None:
         return gen_check(spec, lg, gen[0], gen[1], res)
     return None
+
+def second_release(spec):
+    """the same language with every redefinition of an inherited step flipped between '->' and '+>' and a tag added to
+    every step (well-formed whenever `spec` is)"""
+    s2 = copy.deepcopy(spec)
+    by = {a['name']: a for a in s2['assets']}
+    def inherited(a):
+        out, t = set(), a['superAsset']
+        while t: out |= {st['name'] for st in by[t]['attackSteps']}; t = by[t]['superAsset']
+        return out
+    for a in s2['assets']:
+        inh = inherited(a)
+        for st in a['attackSteps']:
+            st['tags'] = list(st.get('tags') or []) + ['r2']
+            if st.get('reaches') and st['name'] in inh: st['reaches']['overrides'] = not st['reaches']['overrides']
+    return s2
 
 def gen_queries(spec, k):
     """the lookups asked of the generated code: every type twice, in an order drawn from the case number"""
